@@ -798,14 +798,19 @@ def craft_deeprec(isa, r):
     nloc = r.choice((0, 1, 3, 16, 255, 2000))
     arity = r.choice((0, 0, 1, 2))
     nloc = max(nloc, arity)
-    body = [("PUSH_I64", 7)] * arity + [("CALL", 1), ("RET",)]
+    # the recursive function sits behind `pad` one-instruction functions: large function tables put large
+    # indices into call frames (and make index arithmetic on the frame array visible)
+    pad = r.choice((0, 0, 0, 600, 1100, 3000))
+    me = 1 + pad
+    body = [("PUSH_I64", 7)] * arity + [("CALL", me), ("RET",)]
     how = r.choice(("call", "call", "closure", "indirect"))
     if how == "closure" and isa.has("CLOSURE_NEW", "CLOSURE_CALL"):
-        body = [("PUSH_I64", 7)] * arity + [("CLOSURE_NEW", 1, 0), ("CLOSURE_CALL",), ("RET",)]
+        body = [("PUSH_I64", 7)] * arity + [("CLOSURE_NEW", me, 0), ("CLOSURE_CALL",), ("RET",)]
     elif how == "indirect" and isa.has("CLOSURE_NEW", "CALL_INDIRECT"):
-        body = [("PUSH_I64", 7)] * arity + [("CLOSURE_NEW", 1, 0), ("CALL_INDIRECT",), ("RET",)]
-    main = [("PUSH_I64", 1)] * arity + [("CALL", 1), ("RET",)]
-    return "craft.deeprec", a.module([(0, 0, 0, 0, main), (1, arity, nloc, 0, body)], strings=(b"main", b"f"))
+        body = [("PUSH_I64", 7)] * arity + [("CLOSURE_NEW", me, 0), ("CALL_INDIRECT",), ("RET",)]
+    main = [("PUSH_I64", 1)] * arity + [("CALL", me), ("RET",)]
+    fns = [(0, 0, 0, 0, main)] + [(1, 0, 0, 0, [("RET",)])] * pad + [(1, arity, nloc, 0, body)]
+    return "craft.deeprec", a.module(fns, strings=(b"main", b"f"))
 
 
 def craft_selfref(isa, r):
@@ -877,8 +882,17 @@ def craft_counts(isa, r):
     vals = [cnt if k == "U16" else (r.choice(U8_B) if k == "U8" else 0) for k in kinds]
     if name == "UNION_CONSTRUCT":
         vals = [0, r.choice((0, 1, 65535)), cnt]
-    follow = r.choice(([], [("PRINT",)], [("POP",)], [("DUP",), ("EQ",)], [("TUPLE_GET", r.choice((0, cnt - 1 if cnt else 0, cnt, 65535)))],
-                       [("ARR_LEN",)], [("STRUCT_GET", r.choice((0, cnt, 65535)))], [("UNION_FIELD", r.choice((0, cnt, 65535)))]))
+    # the accessor that belongs to the constructor, index at the boundaries of the count just used
+    idx = r.choice((0, max(0, cnt - 1), cnt, cnt, min(65535, cnt + 1), 65535))
+    acc = {"TUPLE_NEW": [[("TUPLE_GET", idx)]],
+           "STRUCT_LITERAL": [[("STRUCT_GET", idx)], [("PUSH_I64", 5), ("STRUCT_SET", idx)]],
+           "UNION_CONSTRUCT": [[("UNION_FIELD", idx)], [("UNION_TAG",)]],
+           "ARR_LITERAL": [[("PUSH_I64", idx), ("ARR_GET",)], [("PUSH_I64", idx), ("PUSH_I64", 7), ("ARR_SET",)], [("PUSH_I64", idx), ("ARR_REMOVE",)], [("ARR_LEN",)]],
+           "CLOSURE_NEW": [[("CLOSURE_CALL",)], [("CALL_INDIRECT",)]]}[name]
+    if r.random() < 0.7:
+        follow = r.choice(acc)
+    else:
+        follow = r.choice(([], [("PRINT",)], [("POP",)], [("DUP",), ("EQ",)]))
     follow = [f for f in follow if isa.has(f[0])]
     return "craft.counts", a.module([(0, 0, 0, 0, pre + [tuple([name] + vals)] + follow + [("PUSH_I64", 0), ("RET",)])])
 
